@@ -243,6 +243,19 @@ func runC19(r *Rec) {
 	}
 	r.Mark("random sequences")
 	for i := 0; i < n; i++ {
+		if r.Rng.Intn(150) == 0 {
+			// the gov state goes through its own genesis export / import (a restart from an exported genesis): every
+			// property must read back as before, and the updates that follow must behave as before
+			before := npDump(ctx, k)
+			if f := w.ReimportGovInPlace(ctx); f != nil {
+				r.Fail("C19/genesis/reimport-failed", fmt.Sprintf("gov InitGenesis of the exported state failed: %v", f), nil)
+			} else if after := npDump(ctx, k); after != before {
+				r.Fail("C19/genesis/properties-changed-by-export-import", "before: "+before+" after: "+after, nil)
+			}
+			r.Op("props dump", npDump(ctx, k))
+			r.Count("reimport")
+			continue
+		}
 		id := ids[r.Rng.Intn(len(ids))]
 		path := []string{"keeper", "proposal", "keeper", "proposal", "dryrun"}[r.Rng.Intn(5)]
 		switch kinds[id] {
